@@ -65,6 +65,15 @@ func genC10(r *hx.RNG, tier string) *opCase {
 		q := hx.CoefOf(r.Digits(r.Range(1, 60)))
 		k.x = oracle.Val{Form: oracle.Finite, Neg: r.Bool(), Coef: new(big.Int).Mul(q, k.y.Coef), Exp: k.y.Exp + int64(r.Range(-20, 20))}
 	}
+	if (k.op == "Add" || k.op == "Sub") && r.Chance(10) {
+		// one operand lies whole words above the other's mantissa (nothing overlaps): with the lower one as receiver and
+		// spare capacity behind its words, an in-place sum writes into stale territory
+		k.x = r.Finite(r.Range(1, 60), le)
+		k.y = r.Finite(r.Range(1, 40), le+int64(19*r.Range(1, 12)+r.Range(0, 18))+int64(r.Range(1, 40)))
+		if r.Bool() {
+			k.x, k.y = k.y, k.x
+		}
+	}
 	if k.op == "Quo" && r.Chance(12) { // divisors that invite a shortcut: powers of ten (one mantissa word), 1, 2, 5
 		k.y = oracle.Val{Form: oracle.Finite, Neg: r.Bool(), Coef: big.NewInt([]int64{1, 1, 1, 2, 5, 25}[r.Intn(6)]), Exp: int64(r.Range(-60, 60))}
 		if r.Bool() {
